@@ -35,7 +35,7 @@ func readTransaction(w http.ResponseWriter, r *http.Request) {
 		case postgres.IsNotFoundError(err):
 			api.NotFound(w, err)
 		default:
-			common.HandleCommonErrors(w, r, err)
+			common.HandleCommonPaginationErrors(w, r, err)
 		}
 		return
 	}
